@@ -25,7 +25,7 @@ ASSIGN = ("set", "setitem", "setcfg", "itemset", "cmdline")
 
 
 def bounds(tier):
-    leaves = list(W.catalogue()) if tier == "thorough" else W.quick_leaves() + ["list-int-cd", "dict-typed-cd", "int-cd", "challenge-dflt", "list-any-dflt"]
+    leaves = list(W.catalogue()) if tier == "thorough" else W.quick_leaves() + ["list-int-cd", "dict-typed-cd", "int-cd", "challenge-dflt", "list-any-dflt", "challenge-counter"]
     return {"shapes": ["flat", "nested", "cfglist", "dynamic", "nested-v"], "leaves": leaves, "depth": 4 if tier == "thorough" else 2}
 
 
@@ -41,6 +41,8 @@ def jobs(tier):
 def default_norm(f):
     """reference normal form of the declared default of leaf spec f (None when absent)"""
     o = f.get("o", {})
+    if o.get("default_counter"):
+        return ("undef", "a different secret per evaluation: judged by per_call_defaults")
     if "default" not in o:
         return ("ok", None)
     fs = dict(f)
@@ -118,6 +120,50 @@ class Monitor:
                         walk(sub, f, path + ".")
         walk(w.cfg, self.spec, "")
 
+    def per_call_defaults(self, ctx, w, hist):
+        """a callable default that returns a new secret on every call: each field of each configuration (and each
+        reset) must hold the digest of a secret issued for *it*, i.e. no two of them verify the same issued secret"""
+        import cincoconfig as cc
+        if not w.built.issued:
+            return
+        issued = [x for lst in w.built.issued.values() for x in lst]
+        cfgs = [w.cfg, w.built.schema()]
+        paths = [p for p, f in W.leaf_paths(self.spec) if f.get("o", {}).get("default_counter") and "[" not in p]
+        init = hist[0][1] or {}
+        paths = [p for p in paths if p.split(".")[0] not in init]
+        if paths:
+            cc.reset_value(cfgs[1], paths[0])
+        issued = [x for lst in w.built.issued.values() for x in lst]
+        seen = {}
+        for ci, c in enumerate(cfgs):
+            for p in paths:
+                try:
+                    dv = W.chained(c, p)
+                except Exception:  # noqa
+                    continue
+                if dv is None or type(dv).__name__ != "DigestValue":
+                    self.bad(ctx, "default-value", "callable default of %s gave %s" % (p, V.show(dv, 40)), hist, None)
+                    continue
+                ok = []
+                for s_ in issued:
+                    try:
+                        dv.challenge(s_)
+                        ok.append(s_)
+                    except Exception:  # noqa
+                        pass
+                if len(ok) != 1:
+                    self.bad(ctx, "callable-default-not-issued", "%s of configuration %d verifies %s of the issued secrets" % (p, ci, ok or "none"), hist, None)
+                elif ok[0] in seen:
+                    self.bad(ctx, "callable-default-reused", "%s of configuration %d holds the digest issued for %s" % (p, ci, seen[ok[0]]), hist, None)
+                else:
+                    seen[ok[0]] = "%s of configuration %d" % (p, ci)
+        # the most recent evaluation belongs to the field that was reset last
+        if paths and issued:
+            try:
+                W.chained(cfgs[1], paths[0]).challenge(issued[-1])
+            except Exception:  # noqa
+                self.bad(ctx, "reset-not-reevaluated", "after reset, %s does not hold the digest of the secret the default just returned" % paths[0], hist, None)
+
     def state(self, ctx, w, hist):
         self.dotted_agrees(ctx, w, hist)
         if len(hist) == 1:
@@ -134,6 +180,7 @@ class Monitor:
                 c2 = w.built.schema()
                 if w.built.counters[name] <= n:
                     self.bad(ctx, "callable-default-not-reevaluated", "callable default %s was not evaluated for a second configuration" % name[:60], hist, None)
+            self.per_call_defaults(ctx, w, hist)
             if not init:
                 a, b = w.cfg, w.built.schema()
                 for p, f in W.leaf_paths(self.spec):
